@@ -182,9 +182,9 @@ func DecimalFloatToBigInt(value compact_float.DFloat, maxBase10Exponent int) (*b
 // big.Int to other
 
 func BigIntToBigDecimalFloat(value *big.Int) apd.Decimal {
-	return apd.Decimal{
-		Coeff: *value,
-	}
+	// apd keeps the sign in Negative and the coefficient non-negative, and
+	// the coefficient must not share its words with the caller's big.Int.
+	return *apd.NewWithBigInt(value, 0)
 }
 
 func BigIntToInt(value *big.Int) (int64, error) {
